@@ -59,6 +59,7 @@ class Ctx:
         self.ex_taken = 0
         self.gate_open_obs = []
         self.get_log = []
+        self.cb_registered = set()
         self.reg_samples = []
 
 
@@ -111,6 +112,7 @@ def _get_reusable(ctx, a):
         prev_started = prev._executor_manager_thread is not None
         prev_mw = prev._max_workers
     ids_before = [r["executor_id"] for r in ctx.executors if r["kind"] == "reusable"]
+    earlier_cqs = [r.get("cq_id") for r in ctx.executors if r["kind"] == "reusable" and r.get("cq_id") is not None]
     start = w.steps
     ex = re_.get_reusable_executor(**kw)
     # (no scheduling point between the return above and the reads below)
@@ -127,6 +129,11 @@ def _get_reusable(ctx, a):
             "timeout_kw": kw["timeout"], "init_kw": init, "reuse": kw["reuse"],
             "prev_kwargs_equal": None}
     r = _register(ctx, ex, "reusable")
+    if r.get("cq_id") is None and ex._call_queue is not None:
+        r["cq_id"] = id(ex._call_queue)
+    info["earlier_instances_workers_alive"] = ([] if ex is prev else
+                                               [q.pid for q in w.procs.values() if q.alive and getattr(q, "cq_id", None) in earlier_cqs
+                                                and getattr(q, "cq_id", None) != r.get("cq_id")])
     for o in ctx.executors:
         if o["obj"] is not ex and o["kind"] == "reusable":
             o["released"] = True
@@ -302,6 +309,16 @@ def _user_thread(ctx, i, ops):
                     raise ValueError("callback raises")
                 if kind == "raise_sysexit":
                     raise SystemExit(3)
+                if kind == "get_changed":
+                    # a done-callback (it runs in the manager thread) asks for a differently configured singleton
+                    try:
+                        _get_reusable(ctx, {"max_workers": 1, "timeout": 333, "reuse": "auto", "kill_workers": False})
+                        ctx.cb_log.append((tok, "get_changed_returned", None))
+                    except BaseException as e:
+                        if isinstance(e, (_w.HarnessBug, _w._ProcExit)):
+                            raise
+                        ctx.cb_log.append((tok, "get_changed_raised", type(e).__name__))
+                    return
                 if kind == "submit":
                     spec = {"kind": "echo", "token": 10000 + tok}
                     try:
@@ -315,7 +332,15 @@ def _user_thread(ctx, i, ops):
                             raise
                         ctx.cb_log.append((tok, "submit_failed", type(e).__name__))
 
+            ctx.cb_registered.add(op[1])
             f.add_done_callback(cb)
+            return None
+        if name == "wait_cb":
+            if op[1] not in ctx.cb_registered:
+                return "skipped"
+            # wait until the done-callback attached to that future has run to its end (it runs in the manager thread)
+            w.block_until(lambda: any(e[0] == op[1] and str(e[1]).startswith("get_changed_") for e in ctx.cb_log), None,
+                          what="user:wait-for-callback")
             return None
         if name == "probe":
             # late submit(s) on the executor this thread holds: outcome recorded for the oracles
